@@ -35,6 +35,10 @@ ObjExtra ==
     (* texts that differ only in the white space inside a string literal / a quoted key *)
     Rt(<<NAnyArr, NFilter(NBin("eq", At(<<>>), <<NStr(<<97,32,32,98>>)>>))>>), Rt(<<NAnyArr, NFilter(NBin("eq", At(<<>>), <<NStr(<<97,32,98>>)>>))>>),
     Rt(<<NKey(<<120,32,32,121>>)>>), Rt(<<NKey(<<120,32,121>>)>>),
+    (* text that is printed with \u escapes: parsed again concurrently *)
+    Rt(<<NKey(<<1,2,3,4>>)>>), Rt(<<NAnyArr, NFilter(NBin("eq", At(<<>>), <<NStr(<<7,8,1,31>>)>>))>>),
+    (* a comparison whose left operand yields an item and then fails (strict), on documents where it does and does not *)
+    Rt(<<NAnyArr, NFilter(NBin("ne", At(<<NKey(KA), NAnyArr, NKey(KB)>>), Lit(5)))>>),
     (* ids of nested .keyvalue(): stable from call to call, also for keys that differ only in case *)
     Rt(<<NMethod("keyvalue"), NMethod("keyvalue")>>), Rt(<<NAny(0, -1), NMethod("keyvalue"), NKey(<<105,100>>)>>) }
 PathRows == SetToSeq({[pred |-> FALSE, chain |-> p] : p \in ExprPaths \cup ObjExtra} \cup {[pred |-> TRUE, chain |-> <<q>>] : q \in PredPaths})
@@ -46,7 +50,9 @@ DocSeq == SetToSeq(
     VArr(<<VArr(<<VObj(<<[k |-> KA, v |-> VFlt(1)]>>), VObj(<<[k |-> KA, v |-> VFlt(2)]>>)>>), VStr(KX)>>),
     VArr(<<VStr(<<50,48,49,53,45,48,56,45,48,50>>), VStr(<<50,48,49,54,45,48,50,45,50,57,84,49,50,58,51,52,58,53,54>>), VStr(<<49,50,58,51,52,58,53,54,43,48,53,58,51,48>>), VStr(<<50,48,49,55,45,48,49,45,48,49,84,48,48,58,48,48,58,48,48,90>>)>>) ,
     VObj(<<[k |-> <<65>>, v |-> VFlt(2)], [k |-> KA, v |-> VFlt(1)], [k |-> KB, v |-> VObj(<<[k |-> <<66>>, v |-> VFlt(1)], [k |-> KB, v |-> VFlt(2)]>>)]>>),   \* {"A":2,"a":1,"b":{"B":1,"b":2}}
-    VArr(<<VStr(<<97,32,32,98>>), VStr(<<97,32,98>>), VObj(<<[k |-> <<120,32,32,121>>, v |-> VFlt(1)], [k |-> <<120,32,121>>, v |-> VFlt(2)]>>)>>) })
+    VArr(<<VStr(<<97,32,32,98>>), VStr(<<97,32,98>>), VObj(<<[k |-> <<120,32,32,121>>, v |-> VFlt(1)], [k |-> <<120,32,121>>, v |-> VFlt(2)]>>)>>) ,
+    VArr(<<VObj(<<[k |-> KA, v |-> VArr(<<VObj(<<[k |-> KB, v |-> VFlt(9)]>>), VObj(<<[k |-> KC, v |-> VFlt(1)]>>)>>)]>>)>>),   \* [{"a":[{"b":9},{"c":1}]}]
+    VArr(<<VObj(<<[k |-> KA, v |-> VArr(<<VObj(<<[k |-> KB, v |-> VFlt(5)]>>)>>)]>>)>>) })                                        \* [{"a":[{"b":5}]}]
 VarRow == [vars |-> <<[k |-> KX, v |-> VArr(<<VFlt(1), VFlt(2)>>)]>>]
 ASSUME ndJsonSerialize("paths.ndjson", PathRows)
 ASSUME ndJsonSerialize("docs.ndjson", [i \in 1..Len(DocSeq) |-> [doc |-> DocSeq[i]]])
